@@ -942,6 +942,14 @@ def _bytecode_env(env):
     return env
 
 
+def _is_submodule_entry(d):
+    try:
+        from jedi.inference.names import SubModuleName
+        return isinstance(d._name, SubModuleName)
+    except Exception:
+        return False
+
+
 def _entry_type(d):
     """Name.type of a sub-module entry in a completion list INFERS the sub-module (parses and pickles its file):
     an observation that loads files the asked query did not need and the model does not know of (found in the
@@ -976,6 +984,10 @@ def _session_main(rfd, wfd, root, cache):
                     res = getattr(s, meth)(line, col, **kw)
                     rows = []
                     for d in res:
+                        if _is_submodule_entry(d):
+                            # module_path / line / type of such an entry all INFER the sub-module (ImportName.parent_context)
+                            rows.append((d.name, 'module', None, None))
+                            continue
                         mp = d.module_path
                         rel = None
                         if mp is not None:
